@@ -48,6 +48,18 @@ def constructs():
         yield "list literal as an argument", f"takes_list([{a}, {b}])"
         yield "dict literal under a let hint", f'STMT:let q: Dict<Int> = Dict["j" => {a}, "k" => {b}]'
         yield "if/else under a let hint", f"STMT:let q: Int = if True {{ {a} }} else {{ {b} }}"
+    # match / try / if whose parts are each a subtype of the expected type but do not unify with each other (tuples with a
+    # partly unknown component), and the ordinary atoms under an Option hint
+    TUPLES = ["(1, None)", "(2, Some(3))", "(n, o)", "(n, None)"]
+    for a, b in itertools.product(TUPLES, repeat=2):
+        yield "match under a let hint (tuple parts)", f"STMT:let q: (Int, Option<Int>) = match o {{ Some(v) => {{ {a} }} None => {{ {b} }} }}"
+        yield "match with wildcard under a let hint (tuple parts)", f"STMT:let q: (Int, Option<Int>) = match o {{ Some(v) => {{ {a} }} _ => {{ {b} }} }}"
+        yield "if/else under a let hint (tuple parts)", f"STMT:let q: (Int, Option<Int>) = if True {{ {a} }} else {{ {b} }}"
+        yield "try/catch under a let hint (tuple parts)", f"STMT:let q: (Int, Option<Int>) = try {{ {a} }} catch (e) {{ {b} }}"
+        yield "list literal under a let hint (tuple parts)", f"STMT:let q: List<(Int, Option<Int>)> = [{a}, {b}]"
+    for a, b in itertools.product(ATOMS, repeat=2):
+        yield "match under a let hint", f"STMT:let q: Option<Int> = match o {{ Some(v) => {{ {a} }} None => {{ {b} }} }}"
+        yield "try/catch under a let hint", f"STMT:let q: Option<Int> = try {{ {a} }} catch (e) {{ {b} }}"
     for a, b, c in itertools.product(SMALL, repeat=3):
         yield "list literal of three as for subject", f"STMT:for zz in [{a}, {b}, {c}] {{ }}"
         yield "list literal of three", f"[{a}, {b}, {c}]"
